@@ -413,7 +413,38 @@ RULES = {
 }
 
 
-DOTALL = ("inner_macro_def", "mismatch_debug", "offered_let")
+DOTALL = ["inner_macro_def", "mismatch_debug", "offered_let"]
+JSON_DOTALL = DOTALL_EXTRA = DOTALL   # (one list; json targets add to it through register_json_rules)
+
+
+def register_json_rules(d, origin):
+    """One reader for the json dialects that four builders introduced independently in round 9 (kept compatible with all of
+    them): `"rules": {name: [regex, replacement, why, count?, "dotall"?]}` (count 0 or null = at least once; a name already
+    defined differently is an error; a regex may also start with `(?s)`), `"rules_dotall": [names]`,
+    `"normalise": {"Impl::fn" | "::fn" | "fn": [rule names]}` (json has no tuple keys; a free function has impl None)."""
+    dot_names = set(d.pop("rules_dotall", None) or [])
+    all_dot = ".b1315." in str(origin)      # b1315's dialect: every rule of a json file is applied with re.S
+    for rn, rv in (d.pop("rules", None) or {}).items():
+        rv = list(rv)
+        dot = "dotall" in rv[3:] or rn in dot_names or all_dot
+        rv = [x for x in rv if x != "dotall"]
+        if len(rv) > 3 and rv[3] == 0: rv[3] = None
+        rv = tuple(rv)
+        if rn in RULES and tuple(RULES[rn]) != rv:
+            raise ExtractError("x_fn: %s: normalisation rule %r is already defined differently" % (origin, rn))
+        RULES[rn] = rv
+        if dot and rn not in DOTALL: DOTALL.append(rn)
+    norm = d.get("normalise")
+    if isinstance(norm, dict):
+        out = {}
+        for k, v in norm.items():
+            if isinstance(k, str):
+                impl, _, fn = k.rpartition("::")
+                k = (impl or None, fn)
+            elif isinstance(k, tuple) and k[0] == "":
+                k = (None, k[1])
+            out[k] = list(v)
+        d["normalise"] = out
 
 
 def make_rewriter(rel, plan):
@@ -450,7 +481,7 @@ def make_rewriter(rel, plan):
                 def sub(m):
                     out = m.expand(repl)
                     return out + "\n" * (m.group(0).count("\n") - out.count("\n"))
-                seg, n = re.subn(rx, sub, seg, flags=re.S if rn in DOTALL else 0)
+                seg, n = re.subn(rx, sub, seg, flags=re.S if (rn in DOTALL or rn in DOTALL_EXTRA) else 0)
                 if (want is None and n < 1) or (want is not None and n != want):
                     bad = "normalisation rule %r applies %d times in %s (declared: %s)" % (rn, n, name, want or "at least once"); break
                 log.append(("%s in %s: %s" % (rn, name, RULES[rn][2]), n))
@@ -475,16 +506,7 @@ def load_targets():
     def add(d, origin):
         d = dict(d)
         d["fns"] = [tuple(x) for x in d.get("fns", [])]
-        # (b1012, round 9) normalisation from a json target file: `"rules": {name: [regex, replacement, why, count?]}` are added to
-        # RULES (a name may not be redefined differently), `"normalise": {"Impl::fn" | "::fn": [rule names]}`
-        for rn, r in (d.pop("rules", None) or {}).items():
-            if rn in RULES and tuple(RULES[rn]) != tuple(r):
-                raise ExtractError("x_fn: %s: normalisation rule %s is already defined differently" % (origin, rn))
-            RULES[rn] = tuple(r)
-        if d.get("normalise") and not all(isinstance(k, tuple) for k in d["normalise"]):
-            # ("fn" without "::" = a free function as well: b1617)
-            d["normalise"] = {(((k.split("::", 1)[0] or None, k.split("::", 1)[1]) if "::" in k else (None, k)) if isinstance(k, str) else k): list(v)
-                              for k, v in d["normalise"].items()}
+        register_json_rules(d, origin)
         if d["area"] not in by:
             d.setdefault("consts", []); d.setdefault("structs", []); d.setdefault("externals", {}); d.setdefault("foreign_structs", {})
             d["consts"], d["structs"] = list(d["consts"]), list(d["structs"])
@@ -513,6 +535,7 @@ def load_targets():
         except ValueError as e:
             raise ExtractError("x_fn: %s: %s" % (path, e))
         for d in (data if isinstance(data, list) else [data]):
+            d = dict(d)
             add(d, os.path.basename(path))
     return tgs
 
@@ -520,13 +543,26 @@ def load_targets():
 FIXTURE_PROP = "FIX"    # functions of harness/src/props/fn_gen_fixture.rs: differential test of the translator only
 
 
+def _json_plan(tg):
+    """json form of a target block (round 9, b0103): `"normalise": {"Impl::fn": [rule names]}`, `"rules": {name: [regex,
+    replacement, what is trusted, count?]}` (a regex that must see several lines starts with `(?s)`; a rule name must not
+    clash with a rule of RULES unless it is the same rule), `"arms"`: see translate/fn_arms.py"""
+    register_json_rules(tg, "area %s" % tg["area"])
+    norm = tg.get("normalise")
+    return norm
+
+
 def unit_for(repo, tg):
+    norm = _json_plan(tg)
+    import fn_arms
     u = Unit(repo, tg["rel"], "VlsModel.Gen.Fn" + tg["area"], tg.get("consts", ()), tg.get("externals", {}),
              tg.get("structs", ()), foreign_structs=tg.get("foreign_structs"), tuple_structs=tg.get("tuple_structs"),
              fn_files=tg.get("fns_from", ()),
              views=tg.get("views"), error_ctors=tg.get("error_ctors"), compact_guards=bool(tg.get("compact_guards")), any_order=bool(tg.get("any_order")),
-             rewrite=make_rewriter(tg["rel"], tg["normalise"]) if tg.get("normalise") else None)
+             rewrite=fn_arms.compose(fn_arms.make_arm_splitter(tg["rel"], tg["arms"]) if tg.get("arms") else None,
+                                     make_rewriter(tg["rel"], norm) if norm else None))
     u.log_macros = tuple(tg.get("log_macros", ()))     # declared logging-only macros of the file
+    u.reindent_closures = bool(tg.get("reindent_closures"))    # (b0809) see emit_m in rs2lean.py
     return u
 
 
@@ -544,8 +580,11 @@ def census(repo, tgs=None, units=None):
                 props_of.setdefault(f, []).append(d["id"])
     tied = {}
     for tg in tgs:
+        tu = (units or {}).get(tg["area"])
         for tup in tg["fns"]:
-            tied.setdefault((tg["rel"], tup[0] or None, tup[1]), []).append((tg["area"], tup[2], tup[3]))
+            # (b0507) a target taken from a `fns_from` file of its area counts for the file that defines it
+            src = getattr(tu, "fn_src", {}).get((tup[0] or None, tup[1])) if tu is not None else None
+            tied.setdefault((src.rel if src is not None else tg["rel"], tup[0] or None, tup[1]), []).append((tg["area"], tup[2], tup[3]))
     out = {}
     for rel in files:
         if not os.path.exists(os.path.join(repo, rel)):
@@ -554,12 +593,25 @@ def census(repo, tgs=None, units=None):
             u = Unit(repo, rel, "VlsModel.Census")
         except (RsError, OSError) as e:
             out[rel] = {"properties": props_of[rel], "error": "cannot be indexed: %s" % e}; continue
-        rows = []
+        rows, arm_rows = [], []
         for (impl, name), k in sorted(u.fi.fns.items(), key=lambda kv: kv[1] if isinstance(kv[1], int) else 0):
             qn = (impl + "::" if impl else "") + name
             line_no = u.fi.toks[k].line if isinstance(k, int) else 0
             if (impl, name) in u.fi.decl_only:
                 rows.append({"fn": qn, "line": line_no, "status": "declaration"}); continue
+            # arms of a dispatching `match` translated as methods of their own (translate/fn_arms.py): one extra row per
+            # declared arm, named `Impl::fn[Variant]`; the row of the function itself stays what it is
+            for tg in tgs:
+                sp = (tg.get("arms") or {}).get(qn) if tg["rel"] == rel else None
+                for v, a in (sp["arms"].items() if sp else ()):
+                    tu = (units or {}).get(tg["area"])
+                    ok = tu is not None and (impl, a["fn"]) in tu.fns
+                    tt = [t for t in tg["fns"] if (t[0] or None) == impl and t[1] == a["fn"]]
+                    thm = tt[0][3] if tt else None
+                    arm_rows.append({"fn": "%s[%s::%s]" % (qn, sp["enum"], v), "line": tu.fns[(impl, a["fn"])].line if ok else line_no, "area": tg["area"],
+                                     "status": ("tied" if thm else "translated") if ok else "not translatable",
+                                     **({"property": tt[0][2]} if tt else {}), **({"theorem": thm} if thm and ok else {}),
+                                     **({} if ok else {"why": (tu.failed.get((impl, a["fn"])) if tu else "unit missing")})})
             ties = tied.get((rel, impl, name))
             if ties:
                 # the target's own unit (externals/struct files) decides
@@ -582,6 +634,7 @@ def census(repo, tgs=None, units=None):
             else:
                 why = re.sub(r"^([\w:]+: )+", "", str(why))
                 rows.append({"fn": qn, "line": line_no, "status": "not translatable", "why": why[:200]})
+        rows += arm_rows
         cnt = lambda st: sum(1 for r in rows if r["status"] == st)
         out[rel] = {"properties": props_of[rel], "fns": len(rows), "tied": cnt("tied"), "translated_untied": cnt("translated"),
                     "not_translatable": cnt("not translatable"), "declarations": cnt("declaration"), "list": rows}
